@@ -102,7 +102,7 @@ func lenBoundary(size, ptr uint32, elem uint32) []uint64 {
 	return r
 }
 
-var fdBoundaryFixed = []uint32{0xffffffff, 0, 1, 2, 3, 4, 5, 6, 7, 63, 64, 65, 71, 72, 1 << 20, 0x7fffffff, 0x80000000, 0x80000003, 0xfffffffe, 4096, 4097}
+var fdBoundaryFixed = []uint32{0xffffffff, 0, 1, 2, 3, 4, 5, 6, 7, 63, 64, 65, 71, 72, 127, 128, 129, 1 << 20, 0x7fffffff, 0x80000000, 0x80000003, 0xfffffffe, 4096, 4097}
 
 func flagsBoundary(def uint32) []uint64 {
 	r := []uint64{0, uint64(def), uint64(def) + 1, 0xffff, 0x10000, 0x10000 | uint64(def&1), 0xffffffff, 0x80000000, 0xff, 0x100}
@@ -485,6 +485,23 @@ func genCall(t src, w *world, fn *wasiabi.Func, info map[int32]fdInfo, c *Case) 
 			if n == 0 && !chance(t, g.l("niovs-zero"), 20) {
 				n = 1
 			}
+			if chance(t, g.l("iov-aliasing"), 7) {
+				// many iovecs that all name the same region: the data moved is far larger than the
+				// guest memory although every single iovec is well-formed
+				g.nb++
+				cntN := pick(t, g.l("iov-alias-n"), []uint32{1024, 256, 1024})
+				l := pick(t, g.l("iov-alias-len"), []uint32{16384, 4096})
+				buf := g.alloc(l)
+				arr := g.alloc(8 * cntN)
+				one := make([]byte, 8)
+				le32(one, 0, buf)
+				le32(one, 4, l)
+				if uint64(arr)+8*uint64(cntN) <= uint64(g.size) {
+					g.c.Mem = append(g.c.Mem, Piece{Off: arr, Hex: hex.EncodeToString(one), Rep: cntN})
+				}
+				args[i], args[p.Pair] = uint64(arr), uint64(cntN)
+				continue
+			}
 			data := g.iovecs(n)
 			ptr := g.place(p.Name, data)
 			cnt := uint64(n)
@@ -630,10 +647,19 @@ func genState(t src, fn *wasiabi.Func, c *Case) []StateOp {
 			ops = append(ops, StateOp{Op: "seek", Sel: uni(t, "st-sel", 0, 7), N: pick(t, "st-seekn", []uint32{0, 5, 100, 1000})})
 		}
 	}
+	// Sometimes the table is (nearly) exactly full: the insert that makes it grow (65th, 129th
+	// descriptor) happens in the call under test or just before it.
+	pct := 5
+	if fn.Name == "path_open" || fn.Name == "sock_accept" {
+		pct = 15
+	}
+	if chance(t, "st-fill", pct) {
+		ops = append(ops, StateOp{Op: "fill", N: pick(t, "st-fill-n", []uint32{64, 64, 65, 63, 64, 65, 62, 128, 129, 127})})
+	}
 	// Sometimes the guest has closed a standard stream, as the LAST table operation so that the
 	// slot is still empty during the call under test (poll_oneoff polls its delayed fd_read
 	// subscriptions through descriptor 0, whatever descriptor they name).
-	pct := 10
+	pct = 10
 	if fn.Name == "poll_oneoff" {
 		pct = 40
 	}
